@@ -166,6 +166,9 @@ impl TdSut {
     }
 }
 impl Sut for TdSut {
+    fn config(&self) -> Value {
+        json!([dg!(&self.d, d => d.max_backlog_size())])
+    }
     const TAG: &'static str = "td";
     const COMPARE_MSTATE: bool = false;
     fn new(cfg: &Value) -> Self {
